@@ -114,10 +114,10 @@ func vreAdd(ctx context.Context, root *RootEntry, updates []*sdcpb.Update, flags
 
 // denotation of one rendering
 type vreDen struct {
-	leaves  map[string]string // instance path -> value (key leaves excluded: they are part of the entry identity)
-	entries map[string]bool   // list entries that exist after the change is applied
-	deletes map[string]bool   // deleted subtrees
-	errs    []string
+	leaves   map[string]string // instance path -> value (key leaves excluded: they are part of the entry identity)
+	entries  map[string]bool   // list entries that exist after the change is applied
+	deletes  map[string]bool   // deleted subtrees
+	errs     []string
 	replaced []string // elements carrying operation="replace"
 }
 
